@@ -32,6 +32,7 @@ def generate(tier, seed):
 
 
 impl = fitcase.impl_fit
+shrink = fitcase.shrink
 
 
 def model_requests(case):
